@@ -179,7 +179,7 @@ func RunC18(tier string, seed int64, outDir string, replay string) (*core.Result
 	res.Rule = "random valid programs with ONE positioned fault out of 15 classes (validation, lexing, every kind of @genqlient directive error on fields/operations/fragments, anonymous and keyword names, keyword variables, struct option misuse, unbound scalar) placed in a .graphql file or a raw/interpreted `# @genqlient` literal of a random layout at random line offsets; the true file and line are known from the rendering; non-trivial = Generate failed; distinct by project text"
 	per := 5
 	if tier == "thorough" {
-		per = 50
+		per = 150
 	}
 	rng := core.NewRng(seed)
 	var cases []*c18Case
